@@ -4,6 +4,7 @@ Property theorems only; helper lemmas live in `ConfModel.Lemmas.H2*`.
 -/
 import ConfModel.Generated.C15Facts
 import ConfModel.Lemmas.H2Frame
+import ConfModel.Lemmas.H2Retry
 import ConfModel.Spec.H2
 namespace ConfModel.Props.C15
 open ConfModel.H2 ConfModel.H2.Machine
@@ -46,6 +47,100 @@ the frame header, is decoded once (decoder: every unit is `other`) -/
 example :
     ((frameMachine (fun _ (n : Nat) => some (Frame.other, n + 1))).runChunks (FSt.init true 0)
       [clientPreface.take 10, clientPreface.drop 10 ++ [0, 0, 0, 4], [0, 0, 0, 0, 0]]).2 = [Frame.other] := by
+  decide
+
+
+/-! ### layer 3: the retry collector -/
+
+/-- What reaches the downstream collector for a test name is exactly the retry rule
+(`deliveriesFor`: a refused attempt is held back; a retry drops it; the timer or the end of
+the connection delivers it), whatever is going on for other test names — for every sequence
+of `Complete` / `newAttempt` / `timesUp` / `cancel` operations. -/
+theorem retry_rule (ops : List COp) (n : String) :
+    (Coll.init.run ops).outFor n = deliveriesFor n none ops := by
+  have := run_for ops Coll.init trivial n
+  simpa [Coll.init, Coll.outFor, findName] using this
+
+/-- … and only the operations that concern the name matter. -/
+theorem retry_rule_local (ops : List COp) (n : String) :
+    (Coll.init.run ops).outFor n = deliveriesFor n none (ops.filter (concerns n)) := by
+  rw [retry_rule, deliveriesFor_filter]
+
+/-- **A stream refused and retried yields the trace of the retry**: from any collector state,
+after `Complete(t₁)` with a retryable error, a `newAttempt` for the same name and the
+`Complete(t₂)` of the retry — with arbitrary operations for other names in between — exactly
+`t₂` has been delivered for that name. -/
+theorem retry_yields_retry (c : Coll) (hc : WOK c.waiting) (n : String) (t₁ t₂ : Trace)
+    (h₁ : t₁.name = n) (h₂ : t₂.name = n) (hr₁ : t₁.err.retryable = true) (hr₂ : t₂.err.retryable = false)
+    (mid mid' : List COp) (hm : ∀ op ∈ mid, concerns n op = false) (hm' : ∀ op ∈ mid', concerns n op = false) :
+    (c.run (COp.complete t₁ :: (mid ++ COp.newAttempt n :: (mid' ++ [COp.complete t₂])))).outFor n
+      = c.outFor n ++ [t₂] := by
+  rw [run_for _ c hc n, deliveriesFor_cons, stepFor_refused n _ t₁ h₁ hr₁, deliveriesFor_skip n _ mid _ hm,
+    deliveriesFor_cons, stepFor_newAttempt, deliveriesFor_skip n _ mid' _ hm', deliveriesFor_cons,
+    stepFor_final n t₂ h₂ hr₂]
+  simp [deliveriesFor]
+
+/-- Without a retry the refused attempt is delivered when the retry timer fires … -/
+theorem refused_delivered_at_timesUp (c : Coll) (hc : WOK c.waiting) (n : String) (t₁ : Trace)
+    (h₁ : t₁.name = n) (hr₁ : t₁.err.retryable = true) (mid : List COp) (hm : ∀ op ∈ mid, concerns n op = false) :
+    (c.run (COp.complete t₁ :: (mid ++ [COp.timesUp n]))).outFor n = c.outFor n ++ [t₁] := by
+  rw [run_for _ c hc n, deliveriesFor_cons, stepFor_refused n _ t₁ h₁ hr₁, deliveriesFor_skip n _ mid _ hm,
+    deliveriesFor_cons, stepFor_timesUp]
+  simp [deliveriesFor]
+
+/-- … or when the connection ends. -/
+theorem refused_delivered_at_cancel (c : Coll) (hc : WOK c.waiting) (n : String) (t₁ : Trace)
+    (h₁ : t₁.name = n) (hr₁ : t₁.err.retryable = true) (mid : List COp) (hm : ∀ op ∈ mid, concerns n op = false) :
+    (c.run (COp.complete t₁ :: (mid ++ [COp.cancel]))).outFor n = c.outFor n ++ [t₁] := by
+  rw [run_for _ c hc n, deliveriesFor_cons, stepFor_refused n _ t₁ h₁ hr₁, deliveriesFor_skip n _ mid _ hm,
+    deliveriesFor_cons, stepFor_cancel]
+  simp [deliveriesFor]
+
+/-- **Never twice**: for every operation sequence, no trace is delivered more often than it
+was completed (so a trace completed once is delivered at most once, by the timer *or* by
+`cancel` *or* at once — never by two of them). -/
+theorem never_twice (ops : List COp) (t : Trace) : (Coll.init.run ops).out.count t ≤ completions t ops := by
+  have h := count_run ops Coll.init t
+  have e1 : Coll.init.out.count t = 0 := by simp [Coll.init]
+  have e2 : valuesCount t Coll.init.waiting = 0 := by simp [Coll.init, valuesCount]
+  omega
+
+/-- **Never both**: once the retry has started, the refused attempt is gone for good — it is
+not delivered by any later operation sequence (unless it is completed again). -/
+theorem refused_then_retried_never_delivered (c : Coll) (hc : WOK c.waiting) (n : String) (t₁ : Trace)
+    (h₁ : t₁.name = n) (hr₁ : t₁.err.retryable = true) (hfresh : t₁ ∉ c.out)
+    (mid rest : List COp) (hm : ∀ op ∈ mid, concerns n op = false) (hrest : completions t₁ rest = 0) :
+    t₁ ∉ (c.run ((COp.complete t₁ :: (mid ++ [COp.newAttempt n])) ++ rest)).out := by
+  rw [ConfModel.H2.run_append]
+  generalize hc' : c.run (COp.complete t₁ :: (mid ++ [COp.newAttempt n])) = c'
+  have hw : WOK c'.waiting := by rw [← hc']; exact WOK_run _ c hc
+  have hout : c'.outFor n = c.outFor n := by
+    rw [← hc', run_for _ c hc n, deliveriesFor_cons, stepFor_refused n _ t₁ h₁ hr₁, deliveriesFor_skip n _ mid _ hm,
+      deliveriesFor_cons, stepFor_newAttempt]
+    simp [deliveriesFor]
+  have hheld : findName n c'.waiting = none := by
+    rw [← hc', held_run _ c hc n, List.foldl_cons, stepFor_refused n _ t₁ h₁ hr₁, held_skip n _ mid _ hm,
+      List.foldl_cons, stepFor_newAttempt]
+    rfl
+  have h0 : c'.out.count t₁ = 0 := by
+    apply not_mem_out_of_outFor
+    rw [h₁, hout]
+    intro hm
+    exact hfresh (List.mem_filter.mp hm).1
+  have hv : valuesCount t₁ c'.waiting = 0 := valuesCount_zero_of_not_held t₁ _ hw (by rw [h₁]; exact hheld)
+  have := count_run rest c' t₁
+  have hz : (c'.run rest).out.count t₁ = 0 := by omega
+  exact List.count_eq_zero.mp hz
+
+/-- non-vacuity (all hypotheses of the three theorems above, on a concrete run): stream 1 of
+test `a` is refused while test `b` completes, the retry starts and completes: only the
+retry's trace is delivered for `a`. -/
+example :
+    let t₁ : Trace := { Trace.empty with name := "a", err := .stream 1 7 }
+    let t₂ : Trace := { Trace.empty with name := "a", err := .none, events := [.reqStart] }
+    let tb : Trace := { Trace.empty with name := "b" }
+    (Coll.init.run [.complete t₁, .complete tb, .newAttempt "a", .newAttempt "b", .complete t₂, .timesUp "a", .cancel]).out
+      = [tb, t₂] := by
   decide
 
 /-! ### transparency -/
